@@ -32,7 +32,9 @@ RULE = ('seeded generator: produce requests with topics as bytes of length 0..30
         'keyed requests from a reference encoder; zlib.crc32 vs Crc32.v; produce/metadata responses with 0..5 topics x 0..5 '
         'partitions, hosts/topic names with arbitrary bytes, duplicate ids, negative error codes, int edges, truncated / '
         'tampered / random replies; send/reply histories through KafkaSerializerSink -> KafkaTransportSink with the real TagPool '
-        'or scripted tags (int32 edges, duplicates), replies in any order, duplicated, unknown ids, short replies. '
+        'or scripted tags (int32 edges, duplicates), replies in any order, duplicated, unknown ids, short replies; sequences of '
+        '2..5 requests of shrinking/equal/growing size through one sink instance (each queued frame parsed strictly: declared '
+        'size = bytes written, nothing stale or trailing). '
         'non-trivial = the implementation produced bytes / a decoded value / a routing decision (no exception); distinct by '
         'canonical JSON of (case, observation)')
 TRUSTED = ['zlib.crc32 (the implementation uses it; the harness uses it as the CRC oracle and to cross-check Model/Crc32.v)',
@@ -558,6 +560,37 @@ def gen_route(r):
   return {'kind': 'route', 'cid': r.choice(CIDS), 'pool': 'scripted' if scripted else 'real', 'ops': ops}
 
 
+def gen_sequence(r):
+  """2..5 requests of varying size (long -> short, equal, growing, mixed with metadata requests) through ONE
+  KafkaSerializerSink -> KafkaTransportSink instance, then replies: each frame handed to the send queue must be exactly
+  that request (no bytes of an earlier request before, inside or after it)."""
+  n = r.choice([2, 3, 4, 5])
+  shape = r.choice(['shrink', 'shrink', 'equal', 'grow', 'mixed', 'mixed'])
+  sizes = sorted(r.choice([0, 1, 5, 40, 200, 700, 1500]) for _ in range(n))
+  if shape == 'shrink':
+    sizes.reverse()
+  elif shape == 'equal':
+    sizes = [sizes[-1]] * n
+  elif shape == 'mixed':
+    r.shuffle(sizes)
+  ops = []
+  for k, sz in enumerate(sizes):
+    if shape == 'mixed' and r.random() < 0.3:
+      call = {'meta': []}
+    else:
+      npay = r.choice([0, 1, 1, 2, 3])
+      pays = [rbytes_spec(r, sz // max(1, npay)) for _ in range(npay)]
+      call = {'put': {'topic': rbytes_spec(r, r.choice([1, 3, 10, 60]) if npay else min(sz, 300)), 'partition': r32(r), 'acks': r16(r),
+                      'payloads': pays}}
+    ops.append({'op': 'send', 'k': k, 'call': call})
+    if r.random() < 0.3:
+      ops.append({'op': 'reply', 'to': r.randrange(k + 1), 'presp': gen_presp(r)})
+  for k in r.sample(range(n), n):
+    if r.random() < 0.6:
+      ops.append({'op': 'reply', 'to': k, 'presp': gen_presp(r)})
+  return {'kind': 'route', 'cid': r.choice(CIDS), 'pool': 'real', 'seq': shape, 'ops': ops}
+
+
 def gen_cases(tier, seed):
   q = tier == 'quick'
   out = []
@@ -655,6 +688,15 @@ def gen_cases(tier, seed):
       {'op': 'send', 'k': 6, 'call': {'put': {'topic': hx(b'c'), 'partition': 0, 'acks': 1, 'payloads': []}}},
       {'op': 'reply', 'to': 6, 'raw': '0001'},
   ]})
+  out.append({'kind': 'route', 'cid': None, 'pool': 'real', 'seq': 'shrink', 'ops': [
+      {'op': 'send', 'k': 0, 'call': {'put': {'topic': hx(b'long'), 'partition': 0, 'acks': 1, 'payloads': [{'rnd': 1, 'n': 900}, {'rnd': 2, 'n': 300}]}}},
+      {'op': 'send', 'k': 1, 'call': {'put': {'topic': hx(b's'), 'partition': 0, 'acks': 1, 'payloads': [hx(b'x')]}}},
+      {'op': 'send', 'k': 2, 'call': {'meta': []}},
+      {'op': 'send', 'k': 3, 'call': {'put': {'topic': hx(b's'), 'partition': 0, 'acks': 1, 'payloads': [hx(b'x')]}}},
+      {'op': 'send', 'k': 4, 'call': {'put': {'topic': hx(b'grow'), 'partition': 0, 'acks': 1, 'payloads': [{'rnd': 3, 'n': 64}]}}},
+      {'op': 'reply', 'to': 1, 'presp': [[hx(b's'), [[0, 0, 5]]]]},
+      {'op': 'reply', 'to': 0, 'presp': [[hx(b'long'), [[0, 0, 6]]]]},
+  ]})
   out.append({'kind': 'route', 'cid': None, 'pool': 'scripted', 'ops': [
       {'op': 'send', 'k': 0, 'tag': -2 ** 31, 'call': {'meta': []}},
       {'op': 'send', 'k': 1, 'tag': 2 ** 31 - 1, 'call': {'meta': []}},
@@ -695,8 +737,10 @@ def gen_cases(tier, seed):
       b, t = gen_mresp(r)
       out.append({'kind': 'mresp', 'brokers': b, 'topics': t, 'corr': r32(r), 'mtype': r.choice([3] * 12 + [0, 7]),
                   'mut': gen_mut(r) if r.random() < 0.3 else None})
-    else:
+    elif k < 0.95:
       out.append(gen_route(r))
+    else:
+      out.append(gen_sequence(r))
   return _spread(out)
 
 
@@ -882,10 +926,12 @@ def _run_route(case):
   if case['pool'] == 'scripted':
     pool = _ScriptedPool()
     sink._tag_pool = pool
-  ser = S['KafkaSerializerSink'].__new__(S['KafkaSerializerSink'])
-  S['ClientMessageSink'].__init__(ser)
-  ser._serializer = S['KafkaProtocol']()
-  ser.next_sink = sink
+  class _Provider(object):          # what SinkProvider hands to the serializer sink: CreateSink -> the transport sink
+    def CreateSink(self, properties):
+      return sink
+
+  # the sink is built by its own constructor (one instance for the whole history, as in a real client)
+  ser = S['KafkaSerializerSink'](_Provider(), None, {'label': 'c15'})
   term = Terminal()
   frames = {}          # k -> frame bytes put on the send queue
   out = []
@@ -1200,14 +1246,23 @@ def monitor(case, obs):
             v.append(('request-rejected', where + 'serialisable request answered with %s' % o['err']))
         elif o['o'] == 'send_raise':
           tag = o.get('tag')
+          if tag is None:                       # raised before a tag was taken from the pool
+            tag = op.get('tag', 2) if case['pool'] == 'scripted' else 2
           if adm and _in(tag, I32) and cidb is not None and len(cidb) <= 32767:
-            v.append(('request-rejected', where + 'AsyncProcessRequest raised %s' % o['exc']))
+            v.append(('request-rejected', where + 'AsyncProcessRequest raised %s for a serialisable request' % o['exc']))
         elif o['o'] == 'sent':
           frame = bytes.fromhex(o['frame'])
           if 'put' in call and adm:
             _check_frame_put(v, frame, o['tag'], cidb, topic, payloads, p['acks'], p['partition'], where)
-          elif not adm and 'put' in call:
+          elif not adm:
             v.append(('request-accepted-unencodable', where + 'unencodable request was sent'))
+          else:
+            try:
+              d = py_parse_request(frame)
+              if (d['api_key'], d['version'], d['corr'], d['client'], d.get('meta_topics')) != (3, 0, o['tag'], cidb, []):
+                v.append(('metadata-request-fields', where + repr(d)[:200]))
+            except ParseError as e:
+              v.append(('metadata-request-malformed', where + 'metadata request rejected by the independent v0 parser: %s' % e))
           if len(frame) >= 12:
             corr = int.from_bytes(frame[8:12], 'big', signed=True)
             if corr != o['tag']:
@@ -1457,6 +1512,8 @@ def stats(cases, obs):
       if 'value' in o and 'none' in o['value']:
         out['%s:python-None' % k] += 1
     elif k == 'route':
+      if c.get('seq'):
+        out['route:sequence:%s' % c['seq']] += 1
       for x in o.get('ops', []):
         out['route:%s' % x.get('o')] += 1
         if x.get('o') == 'deliver':
